@@ -12,6 +12,11 @@ C07 — model and spec of the WebSocket opening handshake (`autobahn.websocket.p
 * `ValidRequest` / `ValidResponse`               the Spec: flat conjunctions written from RFC 6455 §4.1 / §4.2
 * `feed` / `feedAll`                             the `data += chunk; processHandshake()` loop
 
+The model mirrors the code after the repairs of the handshake findings: the version header and the status code are matched
+against their grammars (`versionNumeral`, `statusCode`) instead of being read with `int()`, the client compares the
+server's subprotocol with the protocols its request announced, the Host header carries an IPv6 host in brackets
+(`hostHeader`), and `parseUrl` (Model/Url.lean) keeps the path parameters in the resource.
+
 Every Python operation that can raise is explicit: either the enclosing `try/except` turns it into a `fail`, or it is
 `SrvOut.escapes` / `CliOut.escapes` (the exception leaves `dataReceived`).  `stuck` = `succeedHandshake` raised inside
 the future callback (nothing written, still CONNECTING).
@@ -243,15 +248,29 @@ def stageConnection (hs : List Hdr) : Stage Unit :=
 def versionsDesc (vs : List Nat) : Bytes :=
   join [44] ((vs.mergeSort (fun a b => decide (b ≤ a))).map natDigits)
 
+def digitVal (c : UInt8) : Nat := c.toNat - 48
+
+/-- `_WS_VERSION_PAT.fullmatch(v)` with the pattern `[0-9]|[1-9][0-9]|1[0-9][0-9]|2[0-4][0-9]|25[0-5]`, then `int(v)`
+(fix 3f5d73c8; before it the value went through `int()` alone: `+13`, `1_3`, `013` were read as 13) -/
+def versionNumeral (s : Bytes) : Option Nat :=
+  match s with
+  | [a] => if isDigit a then some (digitVal a) else none
+  | [a, b] => if 49 ≤ a && a ≤ 57 && isDigit b then some (digitVal a * 10 + digitVal b) else none
+  | [a, b, c] =>
+    if (a == 49 && isDigit b && isDigit c) || (a == 50 && 48 ≤ b && b ≤ 52 && isDigit c) ||
+       (a == 50 && b == 53 && 48 ≤ c && c ≤ 53)
+    then some (digitVal a * 100 + digitVal b * 10 + digitVal c) else none
+  | _ => none
+
 def stageVersion (cfg : SrvCfg) (hs : List Hdr) : Stage Nat :=
   match hget hs b!"sec-websocket-version" with
   | none => bad
   | some h =>
     if h.cnt > 1 then bad else
-    match pyInt h.val with
+    match versionNumeral h.val with
     | none => bad
     | some v =>
-      if 0 ≤ v ∧ v.toNat ∈ cfg.versions then .ok v.toNat
+      if v ∈ cfg.versions then .ok v
       else .error (.fail 400 [(b!"Sec-WebSocket-Version", versionsDesc cfg.versions)])
 
 def stageProtocols (hs : List Hdr) : Stage (List Bytes) :=
@@ -391,10 +410,10 @@ structure CliCfg where
   headers : List (Bytes × Bytes) := []
   /-- [] = None or "" -/
   origin : Bytes := []
-  /-- the protocols the request announces (`request_options.protocols`) -/
+  /-- the protocols the request announces (`request_options.protocols`, kept in `self.websocket_protocols`): what
+  `processHandshake` compares the server's choice with (fix bbd39a59; before
+  it the comparison was with `factory.protocols`, which differs when `onConnecting` returns its own request) -/
   protocols : List Bytes := []
-  /-- `factory.protocols`, what `processHandshake` compares the server's choice with -/
-  factoryProtocols : List Bytes := []
   /-- spec (draft) version 10..18 -/
   version : Nat := 18
   /-- extension strings of `perMessageCompressionOffers` -/
@@ -404,12 +423,17 @@ deriving Repr
 
 def specToProtocol (v : Nat) : Nat := if v ≤ 12 then 8 else 13
 
+/-- the host as it goes into the Host header: a host containing `:` (an IPv6 address, whose brackets `parse_url`
+removed) is put back into brackets (fix c9c482eb) -/
+def hostHeader (host : Bytes) : Bytes :=
+  if contains 58 host && host.head? != some 91 then [91] ++ host ++ [93] else host
+
 /-- `_actuallyStartHandshake`: the request text, UTF-8 encoded -/
 def clientRequest (cfg : CliCfg) (key : Bytes) : Bytes :=
   utf8Encode (
     b!"GET " ++ cfg.resource ++ b!" HTTP/1.1" ++ crlf
     ++ (if cfg.useragent.isEmpty then [] else b!"User-Agent: " ++ cfg.useragent ++ crlf)
-    ++ b!"Host: " ++ cfg.host ++ b!":" ++ natDigits cfg.port ++ crlf
+    ++ b!"Host: " ++ hostHeader cfg.host ++ b!":" ++ natDigits cfg.port ++ crlf
     ++ b!"Upgrade: WebSocket" ++ crlf
     ++ b!"Connection: Upgrade" ++ crlf
     ++ b!"Pragma: no-cache" ++ crlf
@@ -434,12 +458,20 @@ abbrev CStage (α : Type) := Except CliOut α
 
 def cbad : CStage α := .error .fail
 
-/-- status line: at least two parts, `HTTP/1.1`, `int(code) == 101` -/
+/-- `_HTTP_STATUS_CODE_PAT.fullmatch(code)` with the pattern `[0-9]{3}`, then `int(code)`
+(fix 900bd49a; before it `int()` alone: `+101`, `1_01`, `0101` were read as 101) -/
+def statusCode (s : Bytes) : Option Nat :=
+  match s with
+  | [a, b, c] =>
+    if isDigit a && isDigit b && isDigit c then some (digitVal a * 100 + digitVal b * 10 + digitVal c) else none
+  | _ => none
+
+/-- status line: at least two parts, `HTTP/1.1`, a three-digit status code that is 101 -/
 def cstageStatus (line : Bytes) : CStage Unit :=
   match splitWs line with
   | ver :: code :: _ =>
     if ver ≠ b!"HTTP/1.1" then cbad
-    else match pyInt code with
+    else match statusCode code with
       | none => cbad
       | some n => if n = 101 then .ok () else cbad
   | _ => cbad
@@ -489,7 +521,7 @@ def cstageProtocol (cfg : CliCfg) (hs : List Hdr) : CStage (Option Bytes) :=
     if h.cnt > 1 then cbad else
     let sp := strip h.val
     if sp = [] then .ok none
-    else if sp ∈ cfg.factoryProtocols then .ok (some sp) else cbad
+    else if sp ∈ cfg.protocols then .ok (some sp) else cbad
 
 def cvalidate (cfg : CliCfg) (key : Bytes) (line : Bytes) (hs : List Hdr) : CStage (Option Bytes × List Bytes) := do
   cstageStatus line
